@@ -226,3 +226,43 @@ func ZZ_C15_dkgGossip() {
 	zz.Assert("nothing_secret_reaches_the_logger", zz.LogsAreClean())
 	proc.Close()
 }
+
+func init() { zz.Register("ZZ_C15_keyStore", ZZ_C15_keyStore) }
+
+// ZZ_C15_keyStore: the node's key folder through the real key.Store a daemon uses (key.NewFileStore): the key
+// pair is saved, the share and group of a first epoch, then (a resharing in which the node stays) the share and
+// group of a second epoch over the existing files, optionally read back and reset. Whatever files the store
+// leaves or creates on the way, those holding the private key or a share are owner-only, and what is read back
+// is what was saved last.
+func ZZ_C15_keyStore() {
+	sch := zzfake.Scheme(crypto.DefaultSchemeID)
+	pair, sh, g := zzSecretNode(sch)
+	base := zz.TempDir("c15ks")
+	st := key.NewFileStore(base, "default")
+	zz.Assert("save_key_pair_ok", st.SaveKeyPair(pair) == nil)
+	zz.Assert("save_share_ok", st.SaveShare(sh) == nil)
+	zz.Assert("save_group_ok", st.SaveGroup(g) == nil)
+	last := sh
+	if zz.Bool("a_resharing_follows") {
+		sv := sch.KeyGroup.Scalar().SetBytes(zz.SecretBytes("share2", sch.KeyGroup.ScalarLen()))
+		sh2 := &key.Share{DistKeyShare: kdkg.DistKeyShare{Commits: sh.Commits, Share: &share.PriShare{I: 0, V: sv}}, Scheme: sch}
+		zz.Assert("save_share_ok", st.SaveShare(sh2) == nil)
+		zz.Assert("save_group_ok", st.SaveGroup(g) == nil)
+		last = sh2
+		zz.Tag("second_share_over_the_first")
+	}
+	if zz.Bool("read_back") {
+		p2, err := st.LoadKeyPair()
+		zz.Assert("key_pair_reads_back", err == nil && p2 != nil && p2.Key.Equal(pair.Key))
+		s2, err := st.LoadShare()
+		zz.Assert("last_share_reads_back", err == nil && s2 != nil && s2.Share.V.Equal(last.Share.V))
+	}
+	zz.Assert("the_secrets_were_written", zz.SecretFileCount() >= 2)
+	zz.Assert("files_holding_secrets_are_owner_only", zz.SecretFilesAreOwnerOnly())
+	if zz.Bool("reset") {
+		zz.Assert("reset_ok", st.Reset() == nil)
+		zz.Assert("files_holding_secrets_are_owner_only", zz.SecretFilesAreOwnerOnly())
+		_, err := st.LoadShare()
+		zz.Assert("no_share_after_reset", err != nil)
+	}
+}
